@@ -997,7 +997,9 @@ class ReducedDensityMatrixPropagator(MatrixData, Saveable):
                 if indxR < cutoff_indx - 1:                      
                     indxR += stride
                 else:
-                    indxR = cutoff_indx
+                    # the tensor is kept at its last stored value 
+                    # (index cutoff_indx-1) after the cut-off time
+                    indxR = cutoff_indx - 1
 
                 
             pr.data[indx,:,:] = rho2
@@ -1202,7 +1204,9 @@ class ReducedDensityMatrixPropagator(MatrixData, Saveable):
                 if indxR < cutoff_indx - 1:                      
                     indxR += stride
                 else:
-                    indxR = cutoff_indx
+                    # the tensor is kept at its last stored value 
+                    # (index cutoff_indx-1) after the cut-off time
+                    indxR = cutoff_indx - 1
 
                 
             pr.data[indx,:,:] = rho2
@@ -1332,7 +1336,9 @@ class ReducedDensityMatrixPropagator(MatrixData, Saveable):
                 if indxR < cutoff_indx - 1:                      
                     indxR += stride
                 else:
-                    indxR = cutoff_indx
+                    # the tensor is kept at its last stored value 
+                    # (index cutoff_indx-1) after the cut-off time
+                    indxR = cutoff_indx - 1
 
                 
             pr.data[indx,:,:] = rho2
